@@ -176,7 +176,7 @@ func squash(s string) string {
 	return strings.TrimSpace(b.String())
 }
 
-var c11Cfg = DefaultCfg()
+var c11Cfg = func() *Cfg { c := DefaultCfg(); c.EnumDecreasing = true; return c }()
 
 var c11ValidProp = ev.Prop("c11.valid", genC11(c11Cfg), checkC11Valid, classifyC11, func(c c11Case) interface{} {
 	return map[string]interface{}{"targets": c.Targets, "delim": c.Delim, "recurse": c.Recurse, "files": sampleProg(progCase{c.P, c.Lex})}
